@@ -93,19 +93,22 @@ Proof.
   { intros n. specialize (Hdir n). rewrite !get_directive_ast, <- !k_get_directive in Hdir.
     change V.C03.Model.get_directive with K.get_directive in Hdir.
     rewrite !option_map_comp' in Hdir. exact (orel_of_norm _ _ _ Hdir). }
+  assert (C1 : forall n d p nm ds fs kw, P n = true -> K.get_type S1 n = Some (TDInput d p nm ds fs kw) -> inputs_ok P fs = true).
+  { intros n d p nm ds fs kw Hp Hg. destruct (closed_typedef P S1 n _ Hcl Hp Hg) as [Hc Hpn]. unfold typedef_closed in Hc. rewrite Hpn in Hc. exact Hc. }
+  assert (C2 : forall n dd, K.get_directive S1 n = Some dd -> inputs_ok P (K.dd_argdefs dd) = true).
+  { intros n dd Hg. unfold doc_closed_b in Hcl. rewrite forallb_forall in Hcl. exact (Hcl _ (get_directive_in _ _ _ Hg)). }
+  assert (C3 : forall n td, P n = true -> K.get_type S1 n = Some td -> out_ok P td = true).
+  { intros n td Hp Hg. destruct (closed_typedef P S1 n _ Hcl Hp Hg) as [Hc Hpn]. unfold typedef_closed in Hc. rewrite Hpn in Hc. cbn [negb orb] in Hc.
+    destruct td; exact Hc || reflexivity. }
+  pose proof (implements_nothing_sound P S1 Hi1) as I1. pose proof (implements_nothing_sound P S2 Hi2) as I2.
+  assert (Hfm : forall n f, K.frag_get (K.doc_frags D) n = Some f -> P (iname (fr_cond f)) = true /\ selset_ok P (fr_sel f) = true).
+  { intros n f Hg. exact (doc_frags_ok P D n f Hok Hg). }
   unfold K.check_operation_document, K.check_operation_document_fuel.
-  apply (definitions_vrel S1 S2 P Hty' Hdir').
-  - intros n d p nm ds fs kw Hp Hg. destruct (closed_typedef P S1 n _ Hcl Hp Hg) as [Hc Hpn]. unfold typedef_closed in Hc. rewrite Hpn in Hc. exact Hc.
-  - intros n dd Hg. unfold doc_closed_b in Hcl. rewrite forallb_forall in Hcl. exact (Hcl _ (get_directive_in _ _ _ Hg)).
-  - intros n td Hp Hg. destruct (closed_typedef P S1 n _ Hcl Hp Hg) as [Hc Hpn]. unfold typedef_closed in Hc. rewrite Hpn in Hc. cbn [negb orb] in Hc.
-    destruct td; exact Hc || reflexivity.
-  - exact Hstr.
-  - now apply implements_nothing_sound.
-  - now apply implements_nothing_sound.
-  - intros n f Hg. exact (doc_frags_ok P D n f Hok Hg).
-  - exact Hroot.
-  - exact HrootP.
-  - exact Hok.
+  apply vrel_app.
+  - (* operations and fragment definitions *)
+    exact (definitions_vrel S1 S2 P Hty' Hdir' C1 C2 C3 Hstr I1 I2 (K.doc_frags D) Hfm Hroot HrootP _ _ _ _ Hok).
+  - (* fragments that no operation spreads, checked on their own (UnknownVariable dropped): the same messages *)
+    apply msgs_vrel. exact (unspread_rel S1 S2 P Hty' Hdir' C1 C2 C3 Hstr I1 I2 (K.doc_frags D) Hfm _ _ _ Hok).
 Qed.
 
 (* ------------------------------------------------------------------------------------------ *)
